@@ -140,17 +140,24 @@ def random_doc(rng, max_nodes=40, anim_styles=False, space=False, ruby=True):
         r = rng.random()
         if r < 0.12:
           add("br", p)
-        elif r < 0.2 and ruby and len(kind) + 6 <= max_nodes:
+        elif r < 0.24 and ruby and len(kind) + 10 <= max_nodes:
           # an untimed ruby skeleton: ruby(rb(span(text)), rt(span(text)))
+          # a third of them with timing / display / display animation on the base, the annotation or their spans: the
+          # annotation may be presented for part of the time only, the base may disappear under it
           rk = add("ruby", p, timed=True, regable=False)
+          loose = rng.random() < 0.5
           for sub in ("rb", "rt"):
-            sk = add(sub, rk, timed=False, regable=False)
-            disp[sk - 1] = ""
-            anim[sk - 1] = []
-            for _s in range(2 if (space and rng.random() < 0.5) else 1):
-              sp = add("span", sk, timed=False, regable=False)
-              disp[sp - 1] = ""
-              anim[sp - 1] = []
+            own = loose and rng.random() < (0.7 if sub == "rt" else 0.3)
+            sk = add(sub, rk, timed=own, regable=False)
+            if not own:
+              disp[sk - 1] = ""
+              anim[sk - 1] = []
+            for _s in range(rng.choice([1, 2, 2, 3]) if (loose or space) and rng.random() < 0.7 else 1):
+              own_s = loose and rng.random() < 0.3
+              sp = add("span", sk, timed=own_s, regable=False)
+              if not own_s:
+                disp[sp - 1] = ""
+                anim[sp - 1] = []
               tk = add("text", sp)
               txt[tk - 1] = 1
         else:
